@@ -74,7 +74,8 @@ type callObs struct {
 	Addr    string `json:"addr"`
 	Index   int64  `json:"index"`   // derivation index of Addr, -1 if none / not found
 	Err     string `json:"err"`     // error returned by the API
-	N       int    `json:"n"`       // OnCommit registrations of its transaction (= derivations requested)
+	N       int    `json:"n"`       // derivations requested by its transaction: OnCommit registrations (one per nextAddresses call); 1 if it wrote without registering any
+	Writes  int    `json:"writes"`  // mutating database calls of its transaction
 	Commits bool   `json:"commits"` // its transaction committed
 	Blocked bool   `json:"blocked"` // found blocked (not begun) right after its start while another call was parked
 	Tx      bool   `json:"tx"`      // a write transaction was observed for it
@@ -420,12 +421,7 @@ type run struct {
 	o  *opened
 	sc scenario
 
-	mu      sync.Mutex // the log lock: also held around real commits/rollbacks
-	events  []event
-	pending []struct {
-		ev string
-		st *txState
-	} // tx events, call resolved at the end
+	mu        sync.Mutex // the log lock: also held around real commits/rollbacks
 	gidCall   map[int64]int
 	creator   int64    // goroutine id of wallet.txCreator
 	creatorTx *txState // the write transaction currently open in txCreator
@@ -447,12 +443,6 @@ type logItem struct {
 	ev   string
 	call int
 	st   *txState
-}
-
-func (r *run) log(ev string, call int) {
-	r.mu.Lock()
-	r.order = append(r.order, logItem{ev: ev, call: call})
-	r.mu.Unlock()
 }
 
 func (r *run) hooks() *proxydb.Hooks {
@@ -483,9 +473,7 @@ func (r *run) hooks() *proxydb.Hooks {
 				r.order = append(r.order, logItem{ev: "rollback", st: st})
 			}
 			if st.call >= 0 {
-				r.results[st.call].N = tx.Callbacks
-				r.results[st.call].Commits = err == nil
-				r.results[st.call].Tx = true
+				r.record(st.call, tx, err == nil)
 			}
 			r.mu.Unlock()
 			return err
@@ -496,9 +484,7 @@ func (r *run) hooks() *proxydb.Hooks {
 			err := rollback()
 			r.order = append(r.order, logItem{ev: "rollback", st: st})
 			if st.call >= 0 {
-				r.results[st.call].N = tx.Callbacks
-				r.results[st.call].Commits = false
-				r.results[st.call].Tx = true
+				r.record(st.call, tx, false)
 			}
 			r.mu.Unlock()
 			return err
@@ -528,6 +514,20 @@ func (r *run) hooks() *proxydb.Hooks {
 			r.mu.Unlock()
 		},
 	}
+}
+
+// record notes what the proxy saw of call i's transaction (r.mu held).
+func (r *run) record(i int, tx *proxydb.TxInfo, committed bool) {
+	res := &r.results[i]
+	res.N = tx.Callbacks
+	res.Writes = tx.Writes
+	if tx.Callbacks == 0 && tx.Writes > 0 {
+		// the address requests under test write only when they derive
+		res.N = 1
+		r.notes = append(r.notes, fmt.Sprintf("call %d wrote to the database without registering a commit handler", i))
+	}
+	res.Commits = committed
+	res.Tx = true
 }
 
 // ownCreatorTx is called (through the UTXO filter) inside the transaction
@@ -665,6 +665,7 @@ func (r *run) startCall(i int) {
 		r.mu.Lock()
 		// keep what the hooks recorded
 		res.N, res.Commits, res.Tx, res.Blocked = r.results[i].N, r.results[i].Commits, r.results[i].Tx, r.results[i].Blocked
+		res.Writes = r.results[i].Writes
 		r.results[i] = res
 		r.returned[i] = true
 		r.order = append(r.order, logItem{ev: "return", call: i})
@@ -738,6 +739,12 @@ func (r *run) doRelease(i int) {
 	r.mu.Unlock()
 }
 
+// errStuck is returned (together with what was observed so far) when requests
+// do not return although every gate is open: the wallet under test is wedged
+// (for instance a lock-order inversion introduced by an edit) and the process
+// cannot go on.
+var errStuck = errors.New("requests never returned; wallet wedged")
+
 func (e *env) runScenario(sc scenario) (obs, error) {
 	var out obs
 	e.seq++
@@ -750,7 +757,12 @@ func (e *env) runScenario(sc scenario) (obs, error) {
 	if err != nil {
 		return out, err
 	}
-	defer o.close()
+	stuck := false
+	defer func() {
+		if !stuck {
+			o.close()
+		}
+	}()
 	n := len(sc.Calls)
 	r := &run{o: o, sc: sc, gidCall: map[int64]int{}, started: make([]bool, n), returned: make([]bool, n),
 		parked: make([]bool, n), release: make([]chan struct{}, n), released: make([]bool, n),
@@ -849,7 +861,12 @@ func (e *env) runScenario(sc scenario) (obs, error) {
 	}
 	done := make(chan struct{})
 	go func() { r.wg.Wait(); close(done) }()
+	drainDeadline := time.Now().Add(10 * time.Second)
 	for open := false; !open; {
+		if time.Now().After(drainDeadline) {
+			stuck = true
+			break
+		}
 		select {
 		case <-done:
 			open = true
@@ -866,6 +883,28 @@ func (e *env) runScenario(sc scenario) (obs, error) {
 			}
 			r.mu.Unlock()
 		}
+	}
+	if stuck {
+		st, _ := goStates("")
+		r.mu.Lock()
+		for i := 0; i < n; i++ {
+			if !r.returned[i] {
+				r.notes = append(r.notes, fmt.Sprintf("call %d (%s) never returned; goroutine state %q, wallet.txCreator %q",
+					i, sc.Calls[i].API, st[r.gids[i]], st[r.creator]))
+			}
+		}
+		out.Calls = append([]callObs{}, r.results...)
+		for _, it := range r.order {
+			c := it.call
+			if it.st != nil {
+				c = it.st.call
+			}
+			out.Events = append(out.Events, event{Ev: it.ev, Call: c})
+		}
+		out.Notes = r.notes
+		out.Branches = []branchObs{}
+		r.mu.Unlock()
+		return out, errStuck
 	}
 	o.proxy.SetHooks(nil)
 
@@ -1102,6 +1141,11 @@ func main() {
 				sc.Pre = []callSpec{}
 			}
 			o, err := e.runScenario(sc)
+			if errors.Is(err, errStuck) {
+				// report what was seen, then stop: the process cannot continue
+				out.Emit(caseOut{In: sc, Obs: o, Oracle: []string{}, Tags: append(tagsOf(sc, o), "stuck"), Site: "*"})
+				return fmt.Errorf("%w: %s", err, strings.Join(o.Notes, "; "))
+			}
 			if err != nil {
 				return err
 			}
